@@ -411,8 +411,15 @@ def make_adapters_from_one_specification(
         parameters = search_parameters.copy()
         parameters.update(parse_search_parameters(parameters_spec))
         for name, spec in read_adapters_fasta(path):
+            # A record may have its own search parameters ("ACGT;e=0.2"): the
+            # anchoring characters belong to the sequence
+            sequence, semicolon, record_parameters = spec.partition(";")
             yield make_adapter(
-                anchoring_prefix + spec + anchoring_suffix,
+                anchoring_prefix
+                + sequence
+                + anchoring_suffix
+                + semicolon
+                + record_parameters,
                 adapter_type,
                 parameters,
                 name=name,
